@@ -12,8 +12,13 @@ pub fn check(cx: &Cx, rep: &mut Report) {
     let mut nontrivial = false;
     for af in fx.values() {
         let Some(decl) = af.decl else { continue };
-        if af.is_child || decl.k != 0 || af.refs.is_empty() {
-            continue; // children: C16; services: the registry holds them
+        // children: C16; services: the registry holds them - unless the instance never made it into the registry
+        // (every register of it was refused): then it is an ordinary actor held by its client handles
+        let in_registry = decl.k != 0
+            && (decl.at_setup
+                || ix.ops.iter().any(|o| o.tag == af.tag && matches!(o.op, OpK::Register | OpK::Replace | OpK::SpawnRegister) && o.executed() && !matches!(o.res, Some(Res::Prev { ok: false, .. }))));
+        if af.is_child || in_registry || af.refs.is_empty() {
+            continue;
         }
         let stopped_by_request = af.stops.iter().any(|s| s.accepted) || af.stream_end.is_some();
         let reap = ix.phase("reap");
